@@ -309,6 +309,9 @@ func RunC01(d *Driver) *Report {
 			r.Violation(Case{Stream: "expr-parse", Input: src, Real: c.Ser, Spec: "expression tree per spec precedence/associativity: " + want})
 		}
 	}
+	// the Pratt parser model against the real parser
+	npratt := c01Pratt(r, d, rng, 2*n)
+	r.Rule += fmt.Sprintf("; Pratt model: %d accepted expression texts with parentheses placed at random (all binary and unary operators, groups, indexing; depth <= 6), the real parser's tree against the tree Model/Pratt.lean returns for the same token kinds", npratt)
 	// evaluation order and short circuit
 	for _, src := range c01OrderPrograms() {
 		c := evalStream(r, d, "order", src, RunOpts{}, parts, true, nil)
@@ -441,6 +444,9 @@ func RunC02(d *Driver) *Report {
 		evalStream(r, d, "typematrix", src, RunOpts{}, parts, true, oracle)
 	}
 	for _, w := range Corpus("C02") {
+		if strings.Contains(w.Src, "// host-only") {
+			continue // would take the harness process down; run through the binary above
+		}
 		evalStream(r, d, "corpus:"+w.Name, w.Src, RunOpts{}, parts, true, oracle)
 	}
 	r.DriverCalls = d.N
